@@ -100,6 +100,8 @@ package core
 //@   ensures implies(err == nil && len(args) == 2 && is(args[0], Vector) && is(args[1], int), is(r, Vector) && window(r.(Vector).Val, args[0].(Vector).Val, args[1].(int), len(args[0].(Vector).Val) - args[1].(int)))
 //@   ensures implies(err == nil && len(args) == 3 && is(args[0], Vector) && is(args[1], int) && is(args[2], int), is(r, Vector) && window(r.(Vector).Val, args[0].(Vector).Val, args[1].(int), args[2].(int) - args[1].(int)))
 //@   ensures implies(len(args) >= 1 && !is(args[0], Vector), err != nil)
+//@   ensures implies(len(args) == 2 && is(args[0], Vector) && is(args[1], int) && 0 <= args[1].(int) && args[1].(int) <= len(args[0].(Vector).Val), err == nil)
+//@   ensures implies(len(args) == 3 && is(args[0], Vector) && is(args[1], int) && is(args[2], int) && 0 <= args[1].(int) && args[1].(int) <= args[2].(int) && args[2].(int) <= len(args[0].(Vector).Val), err == nil)
 
 // ---- maps and sets ------------------------------------------------------------------
 
